@@ -15,6 +15,8 @@ From Coq Require Import List QArith Reals Qreals Lia Lra Arith Bool ZArith.
 From NV Require Import Scalar.Ops Model.Common Model.Basis Model.KnotIns Model.InsertKnot Model.KnotRefine
   Proofs.Boehm Proofs.BasisR Proofs.KnotInsR Proofs.InsertKnotR Proofs.KnotRefineR Proofs.RefineR
   Run.InsertKnotH.   (* comparison helpers of the correspondence families: kept in the build closure of this file *)
+From Coq Require Import Permutation Sorted.
+From NV Require Import Proofs.InsertDirR Proofs.InsertVolR Proofs.RefineGenS Proofs.RefineGenI Proofs.RefineGeneral Proofs.RefineDefault Proofs.RefineOp Proofs.RefineParam Proofs.RefineLiftG Proofs.RefineLift Proofs.RefineLiftV Proofs.RefineExamples.
 Import ListNotations.
 
 (* [G] density d: between two consecutive listed knots l_i < l_{i+1} the bisected list contains exactly the points
@@ -107,3 +109,96 @@ Example C05_hypotheses_satisfiable :
   (* full refinement, density 1: every interior knot ends with multiplicity 2 = degree *)
   res_map snd (knot_refinement Qops (1#10000000)%Q true 2 U P None [] 1) = Ok [0;0;0;1#4;1#4;1#2;1#2;3#4;3#4;1;1;1]%Q.
 Proof. cbv zeta. repeat split; vm_compute; reflexivity. Qed.
+
+(* ====================== GENERAL REFINEMENT (round 2, Proofs/Refine*.v): any number of inserted knots, any multiplicities up to the
+   degree, curves / surfaces / volumes, any subset of directions ====================== *)
+
+
+Theorem C05_refine_kv_is_merge : forall (tol : R) (p : nat) (U : list R) (P : list (list R)) (X : list R),
+  (1 <= p)%nat -> sortedR U -> (p < length P)%nat -> length U = (length P + p + 1)%nat ->
+  X <> [] -> sortedR X -> (knR U p <= nth 0 X 0)%R -> (nth (length X - 1) X 0 < knR U (length P))%R ->
+  let V := snd (refine_pts Rops tol p U P X) in
+  Permutation V (U ++ X) /\ sortedR V /\ length V = (length U + length X)%nat.
+Proof. exact refine_kv_is_merge. Qed.
+Print Assumptions C05_refine_kv_is_merge.
+
+Theorem C05_refine_preserves_curve : forall (tol : R) (p : nat) (U : list R) (P : list (list R)) (X : list R) (dim : nat),
+  (1 <= p)%nat -> sortedR U -> (p < length P)%nat -> length U = (length P + p + 1)%nat ->
+  X <> [] -> sortedR X -> (knR U p <= nth 0 X 0)%R -> (nth (length X - 1) X 0 < knR U (length P))%R ->
+  (forall x y, In x X -> In y (X ++ U) -> (x < y)%R -> (tol <= y - x)%R) ->
+  (forall x, In x X -> (count_occ Req_EM_T (X ++ U) x <= p)%nat) ->
+  (forall i, (i < length P)%nat -> length (getp P i) = dim) ->
+  let '(Q, V) := refine_pts Rops tol p U P X in
+  length Q = (length P + length X)%nat /\ (forall w, (w < length Q)%nat -> length (getp Q w) = dim) /\
+  forall c t, (c < dim)%nat -> curve_pt p V Q c t = curve_pt p U P c t.
+Proof. exact refine_preserves_curve. Qed.
+Print Assumptions C05_refine_preserves_curve.
+
+Theorem C05_refine_default_X_spec : forall (tol : R) (p : nat) (U : list R) (d : nat),
+  sortedR U -> (2 * p < length U)%nat -> (0 <= tol)%R ->
+  (forall v y, In v (refine_L p U d) -> In y U -> (Rabs (v - y) <= tol)%R -> y = v) ->
+  StronglySorted Rlt (refine_L p U d) /\ sortedR (refine_Xd tol p U d) /\
+  (forall z, count_occ Req_EM_T (refine_Xd tol p U d) z =
+             if in_dec Req_EM_T z (refine_L p U d) then (p - count_occ Req_EM_T U z)%nat else 0%nat) /\
+  (forall z, In z (refine_Xd tol p U d) -> In z (refine_L p U d) /\ (count_occ Req_EM_T U z < p)%nat /\
+             (knR U p <= z <= knR U (length U - p - 1))%R).
+Proof. exact refine_default_X_spec. Qed.
+Print Assumptions C05_refine_default_X_spec.
+
+Theorem C05_knot_refinement_correct : forall tol check p U P klo add d dim Q V,
+  let kl := (match klo with Some l => l | None => slice U p (length U - p) end) ++ add in
+  plan_ok tol p U (length P) d kl -> (forall i, (i < length P)%nat -> length (getp P i) = dim) ->
+  knot_refinement Rops tol check p U P klo add d = Ok (Q, V) ->
+  let X := refine_Xk tol p U d kl in
+  length Q = (length P + length X)%nat /\ length V = (length U + length X)%nat /\ sortedR V /\ Permutation V (U ++ X) /\
+  (forall w, (w < length Q)%nat -> length (getp Q w) = dim) /\
+  (forall c t, (c < dim)%nat -> curve_pt p V Q c t = curve_pt p U P c t) /\
+  (forall z, In z (refine_Lk d kl) -> (count_occ Req_EM_T U z <= p)%nat -> count_occ Req_EM_T V z = p) /\
+  (forall z, ~ In z (refine_Lk d kl) -> count_occ Req_EM_T V z = count_occ Req_EM_T U z).
+Proof. exact knot_refinement_correct. Qed.
+Print Assumptions C05_knot_refinement_correct.
+
+Theorem C05_knot_refinement_default_correct : forall tol p U P d dim Q V,
+  default_ok tol p U (length P) d -> (forall i, (i < length P)%nat -> length (getp P i) = dim) ->
+  knot_refinement Rops tol true p U P None [] d = Ok (Q, V) ->
+  let X := refine_Xd tol p U d in
+  (1 <= d)%nat /\ length Q = (length P + length X)%nat /\ length V = (length U + length X)%nat /\
+  sortedR V /\ Permutation V (U ++ X) /\
+  (forall w, (w < length Q)%nat -> length (getp Q w) = dim) /\
+  (forall c t, (c < dim)%nat -> curve_pt p V Q c t = curve_pt p U P c t) /\
+  (forall z, In z V -> (knR U p < z < knR U (length P))%R -> (count_occ Req_EM_T U z <= p)%nat -> count_occ Req_EM_T V z = p) /\
+  (forall z, ~ In z (refine_L p U d) -> count_occ Req_EM_T V z = count_occ Req_EM_T U z).
+Proof. exact knot_refinement_default_correct. Qed.
+Print Assumptions C05_knot_refinement_default_correct.
+
+Theorem C05_refine_curve_correct : forall tol check (c : curve (T:=R)) params dim,
+  default_ok tol (c_p c) (c_U c) (length (c_P c)) (dens params 0) ->
+  (forall i, (i < length (c_P c))%nat -> length (getp (c_P c) i) = dim) ->
+  let '(c', raised) := refine_curve Rops tol check c params in
+  c_p c' = c_p c /\ (raised = true -> c' = c) /\
+  (forall i, (i < length (c_P c'))%nat -> length (getp (c_P c') i) = dim) /\
+  (forall cc t, (cc < dim)%nat -> curve_pt (c_p c') (c_U c') (c_P c') cc t = curve_pt (c_p c) (c_U c) (c_P c) cc t).
+Proof. exact refine_curve_correct. Qed.
+Print Assumptions C05_refine_curve_correct.
+
+Theorem C05_refine_surface_correct : forall tol check (g : surf (T:=R)) params dim,
+  (dens params 0 <> 0%nat -> default_ok tol (s_pu g) (s_Uu g) (s_su g) (dens params 0)) ->
+  (dens params 1 <> 0%nat -> default_ok tol (s_pv g) (s_Uv g) (s_sv g) (dens params 1)) ->
+  surf_dims g dim ->
+  let g' := fst (refine_surf Rops tol check g params) in
+  surf_dims g' dim /\ forall c tu tv, (c < dim)%nat -> surf_pt g' c tu tv = surf_pt g c tu tv.
+Proof. exact refine_surf_correct. Qed.
+Print Assumptions C05_refine_surface_correct.
+
+Theorem C05_refine_volume_correct : forall tol check (g : vol (T:=R)) params dim, (1 <= dim)%nat ->
+  (dens params 0 <> 0%nat -> default_ok tol (v_pu g) (v_Uu g) (v_su g) (dens params 0)) ->
+  (dens params 1 <> 0%nat -> default_ok tol (v_pv g) (v_Uv g) (v_sv g) (dens params 1)) ->
+  (dens params 2 <> 0%nat -> default_ok tol (v_pw g) (v_Uw g) (v_sw g) (dens params 2)) ->
+  vol_dims g dim ->
+  let g' := fst (refine_vol Rops tol check g params) in
+  vol_dims g' dim /\ forall c tu tv tw, (c < dim)%nat -> vol_pt g' c tu tv tw = vol_pt g c tu tv tw.
+Proof. exact refine_vol_correct. Qed.
+Print Assumptions C05_refine_volume_correct.
+
+Example C05_default_ok_satisfiable : default_ok (1/1000) 2 exU 4 1.        Proof. exact default_ok_satisfiable. Qed.
+Example C05_refine_ok_satisfiable  : refine_ok  (1/1000) 2 exU 4 exX.      Proof. exact refine_ok_satisfiable. Qed.
